@@ -322,6 +322,16 @@ func (e *Enc) lazyOK(fc *fctx, x *ssa.Alloc) bool {
 			case *ssa.Store:
 				if u.Val == v {
 					sites = append(sites, u)
+					// the address is parked in a local pointer variable: it escapes wherever that variable is read
+					if pv, ok := u.Addr.(*ssa.Alloc); ok && !pv.Heap && v == ssa.Value(x) {
+						if prefs := pv.Referrers(); prefs != nil {
+							for _, pr := range *prefs {
+								if ld, ok := pr.(*ssa.UnOp); ok {
+									sites = append(sites, ld)
+								}
+							}
+						}
+					}
 				}
 			case *ssa.UnOp, *ssa.DebugRef:
 			case *ssa.FieldAddr:
@@ -400,4 +410,11 @@ func (e *Enc) resolveLocal(st *State, v Val) Val {
 		return v
 	}
 	return e.heapValForPath(a, v.Alloc.Type().(*types.Pointer).Elem(), v.Path, v.Ty)
+}
+
+// lazyRef: the pointer value a "@lazy!<i>" marker stands for (resolved against the current state).
+func (e *Enc) lazyRef(st *State, marker string) Val {
+	var i int
+	fmt.Sscanf(marker, "@lazy!%d", &i)
+	return e.resolveLocal(st, e.lazyRefs[i])
 }
